@@ -50,6 +50,12 @@ Definition new_engine (c : cfg) : cfg := set_depth (set_locked (set_queue c []) 
 Definition clone_md (md : mdecl) : mdecl :=
   with_erounds (with_rounds md [uniq [] (concat (md_rounds md))]) 1.
 
+(* a new machine object built by the constructor call of the scenario: only the constructor's own
+   providers (the first resolution round) are attached to it; listeners that were added to the previous
+   object with add_listener are not (histories never construct after a clone) *)
+Definition construct_md (md : mdecl) : mdecl :=
+  with_erounds (with_rounds md (firstn 1 (md_rounds md))) 1.
+
 Definition run_op (beh : behaviour) (md : mdecl) (fuel : nat) (o : op) (c : cfg) : mdecl * cfg * obs :=
   let rm := resolve md in
   let c0 := clear_log c in
@@ -57,14 +63,16 @@ Definition run_op (beh : behaviour) (md : mdecl) (fuel : nat) (o : op) (c : cfg)
            | OSend e tag => send beh rm fuel {| td_ev := Some e; td_tag := tag |} c0
            | OActivate => run_loop beh rm fuel c0
            | OConstruct =>                       (* __init__ discards what the loop returns *)
-               do (c1, _v) <- construct beh rm fuel (new_engine c0); Ok c1 no_res
+               do (c1, _v) <- construct beh (resolve (construct_md md)) fuel (new_engine c0); Ok c1 no_res
            | OWrite s => Ok (set_field c0 (Some s)) no_res
            | OAdd _ => Ok c0 no_res
            | OClone =>
                (* __setstate__: fresh registry and engine, started like a new one *)
                do (c1, _v) <- construct beh (resolve (clone_md md)) fuel (new_engine c0); Ok c1 no_res
            end in
-  let md1 := match o with OAdd ps => add_round md ps | OClone => clone_md md | _ => md end in
+  let md1 := match o with
+             | OAdd ps => add_round md ps | OClone => clone_md md | OConstruct => construct_md md | _ => md
+             end in
   let rm1 := resolve md1 in
   match r with
   | Ok c1 v => (md1, c1, mkobs rm1 (RVal v) c1)
